@@ -39,6 +39,52 @@ func init() {
 // After the first stranded goroutine of a run it is cut down: the run already failed.
 var strandedTimeout = 8 * time.Second
 
+// barrierStuck is the panic raised when a quiescence barrier is not answered: the process
+// goroutine of a watermark is gone, stuck, or no longer releases a waiter for index 0. The run
+// is aborted: the remaining op lines are answered "aborted" and a [barrier-stuck] failure is
+// reported at the op that was being executed.
+type barrierStuck struct{ what string }
+
+func wmBarrier(w *y.WaterMark) func() {
+	return func() {
+		if !w.VerifBarrierTimeout(strandedTimeout) {
+			strandedTimeout = 50 * time.Millisecond
+			panic(barrierStuck{"watermark"})
+		}
+	}
+}
+
+func orcBarrier(v *badger.VerifOracle) func() {
+	return func() {
+		if !v.BarrierTimeout(strandedTimeout) {
+			strandedTimeout = 50 * time.Millisecond
+			panic(barrierStuck{"oracle watermarks"})
+		}
+	}
+}
+
+// abortOnStuck is deferred by the executors.
+func abortOnStuck(ops []string, cur *int, outs []string, oracle *[]string) {
+	r := recover()
+	if r == nil {
+		return
+	}
+	bs, ok := r.(barrierStuck)
+	if !ok {
+		panic(r)
+	}
+	i := *cur
+	if i >= len(ops) {
+		i = len(ops) - 1
+	}
+	*oracle = append(*oracle, fmt.Sprintf("line %d: %s :: [barrier-stuck] the %s did not become quiescent (process goroutine stuck, or a waiter for an index at or below doneUntil is not released)", i+1, ops[i], bs.what))
+	for j := range outs {
+		if outs[j] == "" {
+			outs[j] = "aborted"
+		}
+	}
+}
+
 func awaitClosed(ch <-chan struct{}) bool {
 	select {
 	case <-ch:
@@ -389,7 +435,7 @@ func (s *wmSession) sweep() (woke []string, fails []string) {
 
 func (s *wmSession) close() (fails []string) {
 	// last chance to notice early releases of WaitForMark goroutines
-	settle("wmWaitBody", s.w.VerifBarrier, s.outstanding, false)
+	settle("wmWaitBody", wmBarrier(s.w), s.outstanding, false)
 	_, f := s.sweep()
 	fails = append(fails, f...)
 	s.cancel()
@@ -405,14 +451,16 @@ func (s *wmSession) out(woke []string) string {
 	return fmt.Sprintf("du=%d li=%d woke=%s", s.w.DoneUntil(), s.w.LastIndex(), w)
 }
 
-func execWatermark(ops []string, st *Stats) ([]string, []string) {
-	outs := make([]string, len(ops))
-	var oracle []string
+func execWatermark(ops []string, st *Stats) (outs []string, oracle []string) {
+	outs = make([]string, len(ops))
+	cur := 0
+	defer abortOnStuck(ops, &cur, outs, &oracle)
 	var s *wmSession
 	fail := func(i int, msg string) {
 		oracle = append(oracle, fmt.Sprintf("line %d: %s :: %s", i+1, ops[i], msg))
 	}
 	for i, l := range ops {
+		cur = i
 		w := strings.Fields(l)
 		if len(w) == 0 {
 			outs[i] = "bad-op"
@@ -519,7 +567,7 @@ func execWatermark(ops []string, st *Stats) ([]string, []string) {
 			continue
 		}
 		// all WaitForMark goroutines are back or parked with their mark handled
-		if !settle("wmWaitBody", s.w.VerifBarrier, s.outstanding, fresh) {
+		if !settle("wmWaitBody", wmBarrier(s.w), s.outstanding, fresh) {
 			fail(i, "[waiter-lost] a WaitForMark goroutine is neither back nor parked")
 		}
 		du := s.w.DoneUntil()
@@ -1040,9 +1088,10 @@ func sameCommitted(a, b badger.VerifOracleState) bool {
 	return true
 }
 
-func execOracle(ops []string, st *Stats) ([]string, []string) {
-	outs := make([]string, len(ops))
-	var oracle []string
+func execOracle(ops []string, st *Stats) (outs []string, oracle []string) {
+	outs = make([]string, len(ops))
+	cur := 0
+	defer abortOnStuck(ops, &cur, outs, &oracle)
 	var s *orcSession
 	fail := func(i int, msg string) {
 		oracle = append(oracle, fmt.Sprintf("line %d: %s :: %s", i+1, ops[i], msg))
@@ -1060,7 +1109,7 @@ func execOracle(ops []string, st *Stats) ([]string, []string) {
 				}
 				c.done = true
 			}
-			if !settle("orcReaderBody", s.v.Barrier, s.outstanding, true) || s.outstanding() != 0 {
+			if !settle("orcReaderBody", orcBarrier(s.v), s.outstanding, true) || s.outstanding() != 0 {
 				fail(i, "[reader-stranded] a transaction start is still blocked although every commit is done")
 			}
 		}
@@ -1069,6 +1118,7 @@ func execOracle(ops []string, st *Stats) ([]string, []string) {
 	}
 	trace := os.Getenv("VERIF_TRACE") != ""
 	for i, l := range ops {
+		cur = i
 		if trace {
 			fmt.Fprintln(os.Stderr, "op:", l)
 		}
@@ -1091,7 +1141,7 @@ func execOracle(ops []string, st *Stats) ([]string, []string) {
 			s = &orcSession{managed: w[1] == "1", detect: w[2] == "1"}
 			s.v = badger.VerifNewOracle(s.managed, s.detect, n0)
 			s.ref = newRefOracle(s.managed, s.detect, n0)
-			s.v.Barrier()
+			orcBarrier(s.v)()
 			outs[i] = "ok woke=- " + dumpOracle(s.v.State(), numName)
 			st.Inc("op:reset")
 			continue
@@ -1239,7 +1289,7 @@ func execOracle(ops []string, st *Stats) ([]string, []string) {
 			}
 			if !s.managed {
 				// determinise the racy cleanup inside newCommitTs (see DESIGN/props notes)
-				s.v.Barrier()
+				orcBarrier(s.v)()
 				s.v.Cleanup()
 			}
 		case w[0] == "discard" && len(a) == 1:
@@ -1307,7 +1357,7 @@ func execOracle(ops []string, st *Stats) ([]string, []string) {
 			continue
 		}
 		// ---- quiescence, then collect the transaction starts that returned
-		settled := settle("orcReaderBody", s.v.Barrier, s.outstanding, own >= 0)
+		settled := settle("orcReaderBody", orcBarrier(s.v), s.outstanding, own >= 0)
 		var woke []string
 		for tid, t := range s.txns {
 			if t.state == -1 {
@@ -1554,9 +1604,10 @@ func withTimeout(f func()) bool {
 	return awaitClosed(done)
 }
 
-func execTxn(ops []string, st *Stats) ([]string, []string) {
-	outs := make([]string, len(ops))
-	var oracle []string
+func execTxn(ops []string, st *Stats) (outs []string, oracle []string) {
+	outs = make([]string, len(ops))
+	cur := 0
+	defer abortOnStuck(ops, &cur, outs, &oracle)
 	var s *dbSession
 	fail := func(i int, msg string) {
 		oracle = append(oracle, fmt.Sprintf("line %d: %s :: %s", i+1, ops[i], msg))
@@ -1585,6 +1636,7 @@ func execTxn(ops []string, st *Stats) ([]string, []string) {
 		return "?"
 	}
 	for i, l := range ops {
+		cur = i
 		w := strings.Fields(l)
 		if len(w) == 0 {
 			outs[i] = "bad-op"
@@ -1603,7 +1655,7 @@ func execTxn(ops []string, st *Stats) ([]string, []string) {
 			s = &dbSession{db: db, v: badger.VerifOracleOf(db), detect: w[1] == "1",
 				history: map[string][]dbVersion{}, fp: map[uint64]string{}}
 			s.ref = newRefOracle(false, s.detect, 0)
-			s.v.Barrier()
+			orcBarrier(s.v)()
 			outs[i] = "ok " + dumpOracle(s.v.State(), keyName)
 			st.Inc("op:reset")
 			continue
@@ -1849,7 +1901,7 @@ func execTxn(ops []string, st *Stats) ([]string, []string) {
 			if res != "conflict" && rejectedLeftTrace(s, t, err) {
 				fail(i, "[rejected-trace] a rejected commit left visible writes")
 			}
-			s.v.Barrier()
+			orcBarrier(s.v)()
 			s.v.Cleanup()
 		case w[0] == "discard" && len(w) == 2:
 			if t == nil || t.closed {
@@ -1870,7 +1922,7 @@ func execTxn(ops []string, st *Stats) ([]string, []string) {
 			outs[i] = "bad-op"
 			continue
 		}
-		s.v.Barrier()
+		orcBarrier(s.v)()
 		fin := s.v.State()
 		for tid2, t2 := range s.txns {
 			if !t2.closed && t2.readTs < fin.ReadDoneUntil {
